@@ -348,7 +348,7 @@ def run(ctx):
         sigs |= sg
         for k, w, cfg, ans in res:
             add(k, w, cfg, ans)
-    bound = 3 if ctx.thorough else 2
+    bound = 4 if ctx.thorough else 2
     ajobs = [(c, bound) for c in adaptive_base_configs(ctx.thorough)]
     aresults = map_jobs(_adaptive_job, ajobs, ctx.ncpu)
     nad = 0
